@@ -23,6 +23,8 @@ const (
 	TArrStr
 	THash1 // hash with exactly one entry (key k0, integer value)
 	THash2 // hash with two entries (k0, k1) - never iterated
+	TPat   // a string that is a valid regular expression (for matches)
+	TArrPat
 )
 
 // Cfg selects which constructs a generated program may contain.
@@ -125,6 +127,12 @@ func StdCtx(g *G) ([]*m.CtxVar, []vinfo) {
 	add("b0", TBool, m.Bool(g.flip("b0")))
 	add("b1", TBool, m.Bool(g.flip("b1")))
 	add("z0", TNull, m.Null())
+	// names that begin with operator words (not in / is / or / and / b-)
+	add("index", TInt, m.Num(float64(g.intn("index", 0, 9))), ints...)
+	add("inner", TStr, m.Str(pickS(g, "inner", strPool)))
+	add("orx", TBool, m.Bool(g.flip("orx")))
+	add("isn", TInt, m.Num(float64(g.intn("isn", 0, 5))))
+	add("pat0", TPat, m.Str(pickS(g, "pat0", patPool)))
 	n := g.intn("an0len", 0, 5)
 	a := m.Val{K: m.KArr}
 	for i := 0; i < n; i++ {
@@ -232,6 +240,8 @@ func (g *G) leaf(ty Ty) *m.E {
 			a.A = append(a.A, m.EStr(pickS(g, "ae", strPool)))
 		}
 		return a
+	case TPat:
+		return m.EStr(pickS(g, "pat", patPool))
 	case THash1:
 		return &m.E{K: "hash", KS: []*m.E{g.hashKey("k0")}, A: []*m.E{m.ENum(float64(g.intn("hv", 0, 9)))}}
 	case THash2:
@@ -407,7 +417,21 @@ func (g *G) boolExpr(d int) *m.E {
 	case 6:
 		return m.EBin(pickS(g, "sw", []string{"starts with", "ends with"}), g.Expr(TStr, d-1), g.Expr(TStr, d-1))
 	case 7:
-		return m.EBin("matches", g.Expr(TStr, d-1), m.EStr(pickS(g, "pat", patPool)))
+		// the pattern may be computed: a variable, a loop variable over an
+		// array of patterns, or a conditional
+		var pat *m.E
+		switch g.intn("patk", 0, 3) {
+		case 0:
+			if vs := g.varsOf(TPat); len(vs) > 0 {
+				pat = m.EName(pickS(g, "patvar", vs))
+			}
+		case 1:
+			pat = m.ECond(g.leaf(TBool), m.EStr(pickS(g, "pat", patPool)), m.EStr(pickS(g, "pat", patPool)))
+		}
+		if pat == nil {
+			pat = m.EStr(pickS(g, "pat", patPool))
+		}
+		return m.EBin("matches", g.Expr(TStr, d-1), pat)
 	case 8:
 		return m.ECond(g.Expr(TBool, d-1), g.Expr(TBool, d-1), g.Expr(TBool, d-1))
 	case 9:
@@ -582,6 +606,10 @@ func (g *G) Stmt(nest int) []*m.N {
 	case "print":
 		return []*m.N{m.NPrint(g.Printable(g.C.ExprDepth))}
 	case "comment":
+		if g.intn("emptycomment", 0, 4) == 0 {
+			// empty comments, with and without trim markers: {##} {#-#} {#--#}
+			return []*m.N{{K: "comment", S: pickS(g, "ec", []string{"", "-", "--", " ", "-x-"})}}
+		}
 		body := strings.ReplaceAll(g.Text(), "#}", "# }")
 		return []*m.N{{K: "comment", S: " " + body + " "}}
 	case "verbatim":
@@ -782,6 +810,13 @@ func (g *G) forStmt(nest int) *m.N {
 	case k == 6:
 		n.X = g.Expr(THash1, 0)
 		keyTy = TStr
+	case k == 7 && g.flip("patseq"):
+		a := m.EArr()
+		for i, c := 0, g.intn("npat", 1, 3); i < c; i++ {
+			a.A = append(a.A, m.EStr(pickS(g, "pat", patPool)))
+		}
+		n.X = a
+		elTy = TPat
 	case k == 7:
 		n.X = g.Expr(TNull, 0)
 	case k == 8 && g.C.NonIterable:
